@@ -937,6 +937,366 @@ theorem l1inv_reachable {c0 c : Cfg} (h : Reachable F c0 c) (hg0 : Good c0) (h0 
     obtain ⟨t, t', new, ht, hst⟩ := l1step_of_step (good_reachable hg0 hr) hs
     exact l1inv_of_step ht hst ih
 
+/-! ### the consumer side of the INPUT queue: where the dequeued values are -/
+
+def handVal : Hand → List Nat
+  | .item v => [v]
+  | _ => []
+
+/-- the input values a second-level task has pulled ++ the ones it holds on their way (result of the running
+`Q1.get_batch`, value in hand inside it, value returned by `DequeueIterator.__next__` and not yet consumed) -/
+def own (t : Th) : List Nat :=
+  if t.role = .l2 then
+    t.pulled ++ (if t.x = .lockRel then handVal t.hand else []) ++
+      (if t.x = .deq then (t.a.result ++ inHand t.a).map (·.2) else [])
+  else []
+
+/-- everything taken out of the input queue is: pulled by a second-level task, or on its way to one, or in the shared
+cache of `DequeueIterator(Q1)`, or dropped by a raising `get_batch` -/
+def In1Inv (c : Cfg) : Prop :=
+  List.Perm (c.s1.dequeued.map (·.2)) ((c.ths.map own).flatten ++ c.cache.map (·.2) ++ c.s1.lost.map (·.2))
+
+theorem flatten_set_perm {α} {l : List (List α)} {i : Nat} {x : List α} (y : List α) (h : l[i]? = some x) :
+    ∃ r, List.Perm l.flatten (x ++ r) ∧ List.Perm (l.set i y).flatten (y ++ r) := by
+  induction l generalizing i with
+  | nil => simp at h
+  | cons z zs ih =>
+    cases i with
+    | zero =>
+      simp only [List.getElem?_cons_zero, Option.some.injEq] at h
+      subst h
+      exact ⟨zs.flatten, by simp, by simp⟩
+    | succ j =>
+      simp only [List.getElem?_cons_succ] at h
+      obtain ⟨r, h1, h2⟩ := ih h
+      refine ⟨z ++ r, ?_, ?_⟩
+      · simp only [List.flatten_cons]
+        refine (List.Perm.append_left z h1).trans ?_
+        simp only [← List.append_assoc]
+        exact List.Perm.append_right r List.perm_append_comm
+      · simp only [List.set_cons_succ, List.flatten_cons]
+        refine (List.Perm.append_left z h2).trans ?_
+        simp only [← List.append_assoc]
+        exact List.Perm.append_right r List.perm_append_comm
+
+/-- one step as seen by `In1Inv`: what is newly dequeued (`X`) shows up with the stepping thread, in the cache or in
+`lost` -/
+structure In1Step (c c' : Cfg) (tid : Tid) (t t' : Th) (X : List Nat) : Prop where
+  ths : c'.ths = c.ths.set tid t'
+  deq : c'.s1.dequeued.map (·.2) = c.s1.dequeued.map (·.2) ++ X
+  bal : List.Perm (own t' ++ c'.cache.map (·.2) ++ c'.s1.lost.map (·.2))
+    (own t ++ c.cache.map (·.2) ++ c.s1.lost.map (·.2) ++ X)
+
+theorem in1_of_step {c c' : Cfg} {tid : Tid} {t t' : Th} {X : List Nat} (ht : c.ths[tid]? = some t)
+    (hs : In1Step c c' tid t t' X) (hv : In1Inv c) : In1Inv c' := by
+  unfold In1Inv at hv ⊢
+  rw [hs.deq, hs.ths, List.map_set]
+  have hget : (c.ths.map own)[tid]? = some (own t) := by simp [ht]
+  obtain ⟨r, h1, h2⟩ := flatten_set_perm (own t') hget
+  -- old: dequeued ~ (own t ++ r) ++ cache ++ lost ; new: (own t' ++ r) ++ cache' ++ lost'
+  have a1 : List.Perm (c.s1.dequeued.map (·.2) ++ X)
+      ((own t ++ c.cache.map (·.2) ++ c.s1.lost.map (·.2) ++ X) ++ r) := by
+    refine (hv.append_right X).trans ?_
+    refine ((h1.append_right _).append_right _).append_right X |>.trans ?_
+    simp only [List.append_assoc]
+    refine List.Perm.append_left _ ?_
+    -- r ++ (cache ++ (lost ++ X)) ~ cache ++ (lost ++ (X ++ r))
+    have : List.Perm (r ++ (c.cache.map (·.2) ++ (c.s1.lost.map (·.2) ++ X)))
+        ((c.cache.map (·.2) ++ (c.s1.lost.map (·.2) ++ X)) ++ r) := List.perm_append_comm
+    simpa [List.append_assoc] using this
+  have a2 : List.Perm ((own t ++ c.cache.map (·.2) ++ c.s1.lost.map (·.2) ++ X) ++ r)
+      ((own t' ++ c'.cache.map (·.2) ++ c'.s1.lost.map (·.2)) ++ r) := hs.bal.symm.append_right r
+  refine a1.trans (a2.trans ?_)
+  have a3 : List.Perm ((own t' ++ c'.cache.map (·.2) ++ c'.s1.lost.map (·.2)) ++ r)
+      ((own t' ++ r) ++ c'.cache.map (·.2) ++ c'.s1.lost.map (·.2)) := by
+    simp only [List.append_assoc]
+    refine List.Perm.append_left _ ?_
+    have : List.Perm (c'.cache.map (·.2) ++ (c'.s1.lost.map (·.2) ++ r))
+        (r ++ (c'.cache.map (·.2) ++ c'.s1.lost.map (·.2))) := by
+      rw [← List.append_assoc]; exact List.perm_append_comm
+    simpa [List.append_assoc] using this
+  exact a3.trans (((h2.symm).append_right _).append_right _)
+
+theorem ext_dropped_nil' {s : Shared} {q : Queue.Thread} (h1 : ∀ cc, q.pc ≠ .nGet cc) (h2 : q.pc ≠ .bRaise) :
+    extOf s q = [] ∧ droppedOf q = [] := by
+  unfold extOf droppedOf
+  cases hpc : q.pc <;> simp_all
+
+theorem no_get_of_kind {q : Queue.Thread} (htok : TOK q) (hk : q.prog.kind = .producer ∨ q.prog.kind = .stopper) :
+    (∀ cc, q.pc ≠ .nGet cc) ∧ q.pc ≠ .bRaise := by
+  constructor
+  · intro cc e
+    cases cc with
+    | get =>
+      have := htok.kind .get (by rw [e]; rfl)
+      rcases hk with hk | hk <;> rw [hk] at this <;> cases this
+    | batch =>
+      have := htok.kind .batch (by rw [e]; rfl)
+      rcases hk with hk | hk <;> rw [hk] at this <;> cases this
+  · intro e
+    have := htok.kind .batch (by rw [e]; rfl)
+    rcases hk with hk | hk <;> rw [hk] at this <;> cases this
+
+/-- the caller and the first-level tasks do not touch the cache of `DequeueIterator(Q1)` -/
+theorem cons_cache {c c' : Cfg} {tid : Tid} {t : Th} {alt : Bool} {lbl : String}
+    (h : stepCons c tid t alt = some (lbl, c')) : c'.cache = c.cache := by
+  unfold stepCons at h
+  (repeat' split at h) <;> simp only [Option.some.injEq, Prod.mk.injEq, reduceCtorEq] at h <;>
+    obtain ⟨-, rfl⟩ := h <;> rfl
+
+theorem l1_cache {c c' : Cfg} {tid : Tid} {t : Th} {alt : Bool} {lbl : String}
+    (h : stepL1 c tid t alt = some (lbl, c')) : c'.cache = c.cache := by
+  unfold stepL1 at h
+  (repeat' split at h) <;> simp only [Option.some.injEq, Prod.mk.injEq, reduceCtorEq] at h <;>
+    obtain ⟨-, rfl⟩ := h <;> rfl
+
+theorem afterPull_pulled (fwd : Bool) (tid : Tid) (s2 : Shared) (t : Th) (r : Hand) :
+    (afterPull F fwd tid s2 t r).2.pulled = t.pulled ++ handVal r ∧
+    ((afterPull F fwd tid s2 t r).2.x = .idle ∨ (afterPull F fwd tid s2 t r).2.x = .lockAcq) := by
+  unfold afterPull failPull
+  cases r <;> simp only [handVal, List.append_nil] <;> (repeat' split) <;> simp
+
+theorem perm_move_end {α} (a b c d : List α) : List.Perm (a ++ (b ++ d) ++ c) (a ++ b ++ c ++ d) := by
+  simp only [List.append_assoc]
+  exact List.Perm.append_left a (List.Perm.append_left b List.perm_append_comm)
+
+set_option maxHeartbeats 800000 in
+/-- every step of the two-queue LTS, as seen by the consumer side of the input queue -/
+theorem in1step_of_step {c c' : Cfg} {tid : Tid} {alt : Bool} {lbl : String} (hg : Good c)
+    (h : step F c tid alt = some (lbl, c')) :
+    ∃ t t' X, c.ths[tid]? = some t ∧ In1Step c c' tid t t' X := by
+  have hi := hg.inv
+  obtain ⟨t, t', ht, hths, hrole⟩ := step_set h
+  have hti := hi.ti t (List.mem_of_getElem? ht)
+  have hq1 := q1_get ht
+  -- a step of a producer / stopper part dequeues nothing and drops nothing
+  have hquiet : ∀ (l : String) (a' : Queue.Thread), v1 t = t.a →
+      (t.a.prog.kind = .producer ∨ t.a.prog.kind = .stopper) →
+      stepThread c.s1 t.a tid alt = some (l, c'.s1, a') →
+      c'.s1.dequeued = c.s1.dequeued ∧ c'.s1.lost = c.s1.lost := by
+    intro l a' hv hk hst
+    rw [hv] at hq1
+    have htok : TOK t.a := hg.live1.base.tok t.a (List.mem_of_getElem? hq1)
+    obtain ⟨-, -, -, hdq, -, hlost, -⟩ := stepThread_data l c'.s1 a' hst htok
+    obtain ⟨g1, g2⟩ := no_get_of_kind htok hk
+    obtain ⟨e1, e2⟩ := ext_dropped_nil' (s := c.s1) g1 g2
+    rw [hdq, hlost, e1, e2]; simp
+  have hnone : t.role ≠ .l2 → c'.cache = c.cache → c'.s1.dequeued = c.s1.dequeued → c'.s1.lost = c.s1.lost →
+      ∃ t t' X, c.ths[tid]? = some t ∧ In1Step c c' tid t t' X := by
+    intro hr e1 e2 e3
+    refine ⟨t, t', [], ht, hths, by rw [e2]; simp, ?_⟩
+    have o1 : own t = [] := by simp [own, hr]
+    have o2 : own t' = [] := by simp [own, hrole, hr]
+    rw [o1, o2, e1, e3]; simp
+  unfold step at h
+  simp only [ht] at h
+  cases hr : t.role with
+  | cons =>
+    simp only [hr] at h
+    have hka : t.a.prog.kind = .stopper := by unfold TI at hti; simp only [hr] at hti; exact hti.1
+    rcases cons_s1 h with g | ⟨hc, l, a', hst⟩
+    · exact hnone (by rw [hr]; simp) (cons_cache h) (by rw [g]) (by rw [g])
+    · obtain ⟨e2, e3⟩ := hquiet l a' (by simp [v1, hr, hc]) (.inr hka) hst
+      exact hnone (by rw [hr]; simp) (cons_cache h) e2 e3
+  | l1 =>
+    simp only [hr] at h
+    have hka : t.a.prog.kind = .producer := by unfold TI at hti; simp only [hr] at hti; exact hti
+    obtain ⟨t0, ht0, hS1, -⟩ := stepL1_shared h |> fun x => (⟨t, ht, x.1, x.2⟩ : ∃ t0, c.ths[tid]? = some t0 ∧ S1 c t tid alt c' ∧ S2 c t tid alt c')
+    rcases hS1 with g | ⟨l, a', hst⟩
+    · exact hnone (by rw [hr]; simp) (l1_cache h) (by rw [g]) (by rw [g])
+    · obtain ⟨e2, e3⟩ := hquiet l a' (v1_l1 hr) (.inl hka) hst
+      exact hnone (by rw [hr]; simp) (l1_cache h) e2 e3
+  | l2 =>
+    simp only [hr] at h
+    have hti' := hti
+    unfold TI at hti'
+    simp only [hr] at hti'
+    replace hti' := hti'.2
+    -- a step that moves no input value
+    have hsame : ∀ t'' : Th, c'.ths = c.ths.set tid t'' → c'.cache = c.cache → c'.s1.dequeued = c.s1.dequeued →
+        c'.s1.lost = c.s1.lost → own t'' = own t → ∃ t t' X, c.ths[tid]? = some t ∧ In1Step c c' tid t t' X := by
+      intro t'' e0 e1 e2 e3 e4
+      refine ⟨t, t'', [], ht, e0, by rw [e2]; simp, ?_⟩
+      rw [e1, e3, e4]; simp
+    unfold stepL2 at h
+    split at h
+    · -- start
+      rename_i hpc
+      (repeat' split at h) <;> simp only [Option.some.injEq, Prod.mk.injEq, reduceCtorEq] at h
+      obtain ⟨-, rfl⟩ := h
+      exact hsame _ rfl rfl rfl rfl (by simp [own])
+    · rename_i hpc
+      split at h
+      · -- lockAcq
+        rename_i hxx
+        split at h
+        · simp at h
+        split at h
+        · simp at h
+        split at h
+        · rename_i v rest hcache
+          simp only [Option.some.injEq, Prod.mk.injEq] at h
+          obtain ⟨-, rfl⟩ := h
+          refine ⟨t, _, [], ht, rfl, by simp, ?_⟩
+          simp [own, hr, hxx, handVal, hcache]
+        · rename_i hcache
+          simp only [Option.some.injEq, Prod.mk.injEq] at h
+          obtain ⟨-, rfl⟩ := h
+          exact hsame _ rfl rfl rfl rfl (by simp [own, hr, hxx, inHand, inHandPc])
+      · -- deq
+        rename_i hxx
+        simp only [hxx] at hti'
+        obtain ⟨-, hka, hns, hnd, -⟩ := hti'
+        rw [v1_l2_on hr (.inl hxx)] at hq1
+        split at h
+        · simp at h
+        rename_i l s1' a' hst
+        have htok : TOK t.a := hg.live1.base.tok t.a (List.mem_of_getElem? hq1)
+        obtain ⟨-, -, -, hdq, -, hlost, hseq⟩ := stepThread_data l s1' a' hst htok
+        have hkind := kind_of_tok htok hns hnd
+        rw [hka] at hkind
+        have hne : t.a.pc ≠ .eNext := by intro e; rw [e] at hkind; simp [pcKind] at hkind
+        obtain ⟨-, -, -, -, -, hA, hB, hrec, -⟩ := stepThread_arm l s1' a' hst hne
+        split at h
+        · -- the call goes on
+          rename_i hbe
+          simp only [Option.some.injEq, Prod.mk.injEq] at h
+          obtain ⟨-, rfl⟩ := h
+          obtain ⟨hn3, hnr⟩ := batchEnd_none hbe
+          have hdr : droppedOf t.a = [] := by unfold droppedOf; cases hp : t.a.pc <;> simp_all
+          have hrec' : a'.received = t.a.received := by
+            rcases hrec with e | e | e
+            · exact e
+            · exact absurd e hn3
+            · rw [e] at hkind; simp [pcKind] at hkind
+          rw [hdr, List.append_nil] at hseq hlost
+          have hR : a'.result ++ inHand a' = (t.a.result ++ inHand t.a) ++ extOf c.s1 t.a := by
+            unfold seqOf at hseq
+            rw [hrec'] at hseq
+            simp only [List.append_assoc] at hseq ⊢
+            exact (List.append_cancel_left hseq).symm
+          refine ⟨t, { t with a := a' }, (extOf c.s1 t.a).map (·.2), ht, rfl, by rw [hdq]; simp, ?_⟩
+          have o1 : own t = t.pulled ++ (t.a.result ++ inHand t.a).map (·.2) := by simp [own, hr, hxx]
+          have o2 : own { t with a := a' } = t.pulled ++ ((t.a.result ++ inHand t.a) ++ extOf c.s1 t.a).map (·.2) := by
+            simp only [own, hr, hxx, if_true, reduceCtorEq, if_false, List.append_nil, hR]
+          rw [o1, o2, hlost]
+          simp only [List.map_append]
+          have := perm_move_end (t.pulled ++ (t.a.result.map (·.2) ++ (inHand t.a).map (·.2)))
+            (c.cache.map (·.2) ++ c.s1.lost.map (·.2)) [] ((extOf c.s1 t.a).map (·.2))
+          simpa [List.append_assoc] using
+            (List.Perm.append_left t.pulled (List.Perm.append_left (t.a.result.map (·.2))
+              (List.Perm.append_left ((inHand t.a).map (·.2))
+                (List.perm_append_comm (l₁ := (extOf c.s1 t.a).map (·.2))
+                  (l₂ := c.cache.map (·.2) ++ c.s1.lost.map (·.2))))))
+        · -- the call ends
+          rename_i hd cache' hbe
+          simp only [Option.some.injEq, Prod.mk.injEq] at h
+          obtain ⟨-, rfl⟩ := h
+          rcases batchEnd_some hbe with e | e
+          · -- it returned: the batch goes to the cache, its first element into the hand
+            obtain ⟨e1, e2⟩ := ext_dropped_nil' (s := c.s1) (q := t.a) (by intro cc; rw [e]; simp) (by rw [e]; simp)
+            rw [e1, List.append_nil] at hdq
+            rw [e2, List.append_nil] at hlost
+            have hin : inHand t.a = [] := by simp [inHand, inHandPc, e]
+            refine ⟨t, _, [], ht, rfl, by rw [hdq]; simp, ?_⟩
+            have o1 : own t = t.pulled ++ t.a.result.map (·.2) := by simp [own, hr, hxx, hin]
+            have o2 : own { t with a := a', hand := hd, x := .lockRel } = t.pulled ++ handVal hd := by simp [own, hr]
+            rw [o1, o2, hlost]
+            rw [e] at hbe
+            simp only [batchEnd, beq_self_eq_true, if_true] at hbe
+            have key : List.Perm (handVal hd ++ cache'.map (·.2)) (t.a.result.map (·.2) ++ c.cache.map (·.2)) := by
+              split at hbe
+              · rename_i v rest hcr
+                simp only [Option.some.injEq, Prod.mk.injEq] at hbe
+                obtain ⟨rfl, rfl⟩ := hbe
+                have : (c.cache ++ t.a.result).map (·.2) = v.2 :: rest.map (·.2) := by rw [hcr]; simp
+                simp only [handVal, List.singleton_append, ← this, List.map_append]
+                exact List.perm_append_comm
+              · rename_i hcr
+                simp only [Option.some.injEq, Prod.mk.injEq] at hbe
+                obtain ⟨rfl, rfl⟩ := hbe
+                simp only [List.append_eq_nil_iff] at hcr
+                simp [handVal, hcr.1, hcr.2]
+            simp only [List.append_assoc, List.append_nil]
+            refine List.Perm.append_left _ ?_
+            simp only [← List.append_assoc]
+            exact List.Perm.append_right _ key
+          · -- it raised: its partial result is dropped
+            obtain ⟨hd1, -, hres', -, hl'⟩ := hA e
+            have e1 : extOf c.s1 t.a = [] := by unfold extOf; rw [e]
+            rw [e1, List.append_nil] at hdq
+            have hin : inHand t.a = [] := by simp [inHand, inHandPc, e]
+            have hhd : handVal hd = [] ∧ cache' = c.cache := by
+              rw [e] at hbe
+              simp only [batchEnd, reduceCtorEq, beq_self_eq_true, if_true, if_false, Bool.false_eq_true, beq_iff_eq] at hbe
+              (repeat' split at hbe) <;> simp only [Option.some.injEq, Prod.mk.injEq] at hbe <;>
+                obtain ⟨rfl, rfl⟩ := hbe <;> exact ⟨rfl, rfl⟩
+            refine ⟨t, _, [], ht, rfl, by rw [hdq]; simp, ?_⟩
+            have o1 : own t = t.pulled ++ t.a.result.map (·.2) := by simp [own, hr, hxx, hin]
+            have o2 : own { t with a := a', hand := hd, x := .lockRel } = t.pulled := by simp [own, hr, hhd.1]
+            rw [o1, o2, hl', hhd.2]
+            simp only [List.map_append, List.append_nil]
+            have := perm_move_end t.pulled (c.cache.map (·.2) ++ c.s1.lost.map (·.2)) [] (t.a.result.map (·.2))
+            simp only [List.append_assoc, List.append_nil]
+            refine List.Perm.append_left _ ?_
+            have : List.Perm (c.cache.map (·.2) ++ (c.s1.lost.map (·.2) ++ t.a.result.map (·.2)))
+                (t.a.result.map (·.2) ++ (c.cache.map (·.2) ++ c.s1.lost.map (·.2))) := by
+              rw [← List.append_assoc]; exact List.perm_append_comm
+            exact this
+      · -- lockRel
+        rename_i hxx
+        (repeat' split at h) <;> simp only [Option.some.injEq, Prod.mk.injEq, reduceCtorEq] at h
+        obtain ⟨-, rfl⟩ := h
+        obtain ⟨p1, p2⟩ := afterPull_pulled (F := F) c.fwd tid c.s2 t t.hand
+        have hr' := afterPull_role F c.fwd tid c.s2 t t.hand
+        refine hsame _ rfl rfl rfl rfl ?_
+        have o1 : own t = t.pulled ++ handVal t.hand := by simp [own, hr, hxx]
+        rw [o1]
+        unfold own
+        rw [hr', p1]
+        rcases p2 with e | e <;> simp [hr, e]
+      · simp at h
+    · -- done / up
+      rename_i hpc
+      split at h
+      · rename_i hxx
+        simp only [hxx] at hti'
+        obtain ⟨-, hka, -, -, -⟩ := hti'
+        split at h
+        · simp at h
+        rename_i l s1' a' hst
+        simp only [Option.some.injEq, Prod.mk.injEq] at h
+        obtain ⟨-, rfl⟩ := h
+        obtain ⟨e2, e3⟩ := hquiet l a' (v1_l2_on hr (.inr hxx)) (.inr hka) hst
+        refine hsame _ rfl rfl e2 e3 ?_
+        have o1 : own t = t.pulled := by simp [own, hr, hxx]
+        rw [o1]
+        by_cases hd : a'.pc = .done <;> simp [own, hr, hd]
+      · simp at h
+    · -- a step on the output queue
+      rename_i h1 h2 h3
+      split at h
+      · simp at h
+      rename_i l s2' b' hst
+      simp only [Option.some.injEq, Prod.mk.injEq] at h
+      obtain ⟨-, rfl⟩ := h
+      obtain ⟨hxi, -⟩ := l2_x_idle hr hti (fun e => h2 e) (fun e => h3 e)
+      obtain ⟨hrole', hspec⟩ := postProd_spec tid t s2' b' hxi
+      obtain ⟨f1, -, -⟩ := postProd_fields tid t s2' b'
+      refine hsame _ rfl rfl rfl rfl ?_
+      have o1 : own t = t.pulled := by simp [own, hr, hxi]
+      rw [o1]
+      unfold own
+      rw [hrole', f1]
+      rcases hspec with ⟨-, -, e3, -⟩ | ⟨-, -, e3, -⟩ | ⟨-, -, -, e3, -⟩ | ⟨-, -, e3, -⟩ <;> simp [hr, e3]
+
+theorem in1_reachable {c0 c : Cfg} (h : Reachable F c0 c) (hg0 : Good c0) (h0 : In1Inv c0) : In1Inv c := by
+  induction h with
+  | init => exact h0
+  | step hr hs ih =>
+    obtain ⟨t, t', X, ht, hst⟩ := in1step_of_step (good_reachable hg0 hr) hs
+    exact in1_of_step ht hst ih
+
 theorem out_reachable {c0 c : Cfg} (h : Reachable F c0 c) (hg0 : Good c0) (h0 : OutInv c0) : OutInv c := by
   induction h with
   | init => exact h0
